@@ -374,7 +374,7 @@ def check(ctx):
     # chain relinking on delete / overwrite is this property's subject: adopt the link-origin rules
     import_rules(ctx, "c05", {"delete-links", "overwrite-links", "insert-links"})
     import_rules(ctx, "c06", {"writer-arms", "free-slot-field-position"})
-    import_rules(ctx, "c09", {"sizer-covers-writer", "slot-honoured"})
+    import_rules(ctx, "c09", {"sizer-covers-writer", "slot-honoured", "vu64-reader-consumes-encoded-length"})
     import_rules(ctx, "c01", {"op-wiring", "lookup-result"})
     # a relocated key record is read and written back through the key type's from_bytes / as_bytes: they must be byte-exact
     import_rules(ctx, "c10", {"byte-identity"})
